@@ -18,16 +18,16 @@
 (*                  dxt >= 0:  x = X         if e = -dy                    *)
 (*                             x = ceil(X)-1 otherwise                     *)
 (*                  and e = -dy exactly when the slope is a whole number   *)
-(*                  (dx = 0) and the walk began at or below the upper end  *)
-(*   PathIndependent  a walk begun at or below the upper end point is in   *)
-(*                  the state EdgeInit gives for the current row directly  *)
+(*                  (dx = 0)                                               *)
+(*   PathIndependent  every walk is in the state EdgeInit gives for the    *)
+(*                  current row directly                                   *)
 (*   SmallIsStep    pixman_edge_step (StepYSmall) = RENDER_EDGE_STEP_SMALL *)
 (*   SampleY        SampleCeilY / SampleFloorY are the first grid row >= y *)
 (*                  / the last grid row < y  (checked once, all y of a box)*)
 (* Negative configurations: InitE <- BadInitE (e = 0 for dx >= 0),         *)
-(* NeedsCorrection <- BadNeedsCorrection (e >= 0), QStale = TRUE and       *)
-(* QExact0 = TRUE (the unrepaired pixman_edge_step / pixman_edge_init):    *)
-(* TLC must reject each.                                                   *)
+(* NeedsCorrection <- BadNeedsCorrection (e >= 0), QStale = TRUE,          *)
+(* QExact0 = TRUE, QBackstep = TRUE (the unrepaired pixman_edge_step /     *)
+(* pixman_edge_init): TLC must reject each.                                *)
 (***************************************************************************)
 EXTENDS Trap, FiniteSets, TLC
 
@@ -37,11 +37,11 @@ CONSTANTS Ds,        \* depths explored
           Above,     \* start rows as far as this above the upper end point
           Below,     \* rows walked as far as this below the lower end point
           JumpMags,  \* jump amounts for pixman_edge_step (both signs are explored)
-          QStale, QExact0   \* quirks of the unrepaired tree (FALSE, FALSE = the specification)
+          QStale, QExact0, QBackstep   \* quirks of the unrepaired tree (all FALSE = the specification)
 
 VARIABLES c          \* the configuration record
 
-Q == [stale |-> QStale, exact0 |-> QExact0, wrap |-> FALSE]
+Q == [stale |-> QStale, exact0 |-> QExact0, backstep |-> QBackstep, wrap |-> FALSE]
 
 DXs   == {sg * mag : sg \in {-1, 1}, mag \in DXMags}
 Jumps == {sg * mag : sg \in {-1, 1}, mag \in JumpMags}
@@ -98,14 +98,11 @@ WalkerMeaning ==
        THEN D <= P /\ P < D + c.dy                                  \* x = floor(X)
        ELSE /\ (c.ed.e = -c.dy) => D = P                            \* x = X
             /\ (c.ed.e # -c.dy) => (D < P /\ P <= D + c.dy)         \* x = ceil(X) - 1
-            /\ ~c.jumped => ((c.ed.e = -c.dy) <=> (c.n0 >= 0 /\ DXr = 0))
+            /\ (c.ed.e = -c.dy) <=> (DXr = 0)
 
-(* the state on a row is the state EdgeInit gives for that row directly, whatever the walk was; *)
-(* only an edge running right with a whole-number slope (x = X while the walk stays at or     *)
-(* below the upper end point) remembers having been above it (x = X - 1 from then on)         *)
+(* the state on a row is the state EdgeInit gives for that row directly, whatever the walk was *)
 PathIndependent ==
-    (Walking /\ (DXr > 0 \/ c.dxt < 0 \/ (c.n0 >= 0 /\ ~c.jumped))) =>
-       c.ed = EdgeInitQ(c.n, c.y, XT, c.yt, XT + c.dxt, c.yt + c.dy, NoQuirks)
+    Walking => c.ed = EdgeInitQ(c.n, c.y, XT, c.yt, XT + c.dxt, c.yt + c.dy, NoQuirks)
 
 SmallIsStep ==
     Walking => /\ EdgeStepQ(c.ed, StepYSmall(c.n), NoQuirks) = EdgeStepSmall(c.ed)
